@@ -168,7 +168,8 @@ func realTriples(s *packet.Session) []model.Triple {
 	var out []model.Triple
 	for _, h := range s.GetHosts() {
 		h.MACEntry.Row.RLock()
-		out = append(out, model.Triple{MAC: model.MAC(h.MACEntry.MAC), IP: h.Addr.IP, Online: h.Online})
+		// the MAC the API user sees in Host.Addr (invariant I2 of C05 separately demands that it equals the entry's MAC)
+		out = append(out, model.Triple{MAC: model.MAC(append([]byte(nil), h.Addr.MAC...)), IP: h.Addr.IP, Online: h.Online})
 		h.MACEntry.Row.RUnlock()
 	}
 	model.SortTriples(out)
